@@ -1,7 +1,589 @@
-//! C07 — not implemented yet.
+//! C07 — CRAM files round-trip their records and are structurally conformant containers.
+//!
+//! Oracle 1: write with `cram::io::Writer` (all options from the document), read back with the same
+//! repository, compare field by field with the generator's ground truth in the normal form CRAM is
+//! specified to keep (see `gen::cram::Canon`).
+//! Oracle 2: the independent container walker (`oracle::cram_walk`) plus ground-truth joins
+//! (record partition, counters, reference context, slice MD5).
+//!
+//! Failure signatures are `c07.<what>@<context>`; the context is a predicate on the *case* (which
+//! input class the record / document belongs to), so a known defect of one input class never hides
+//! a discrepancy in another.
 
 use crate::engine::*;
+use crate::oracle::cram_walk::{self as walk, CramFile};
+use crate::r#gen::cram::{self as g, Canon, CramDoc, FlatRec};
+use proptest::prelude::*;
+use serde::{Deserialize, Serialize};
+
+#[derive(Clone, Debug, Serialize, Deserialize)]
+pub struct Case {
+    pub doc: CramDoc,
+}
+
+fn strategy(_tier: Tier) -> BoxedStrategy<Case> {
+    g::full_strategy(40).prop_map(|doc| Case { doc }).boxed()
+}
+
+// ---------------------------------------------------------------------------------------------
+// contexts (predicates on the case)
+// ---------------------------------------------------------------------------------------------
+
+/// Document-level input class, for failures that cannot be attributed to one record (writer
+/// panic, unreadable file): the first hazard class present, `-` for none.
+pub fn doc_ctx(h: &g::Hazards) -> &'static str {
+    if h.mapped_missing_bases {
+        "mapped-missing-bases"
+    } else if h.missing_quals {
+        "missing-quals"
+    } else if h.unmapped_missing_bases {
+        "unmapped-missing-bases"
+    } else if h.placed_unmapped_overhang {
+        "placed-unmapped-overhang"
+    } else if h.missing_name {
+        "missing-name"
+    } else {
+        "-"
+    }
+}
+
+/// How the CRAM writer will treat the mate information of record `i`: records that are
+/// segmented and not secondary are chained by name inside a slice and their mate fields / TLEN are
+/// *recomputed* on read; everything else is stored verbatim ("detached").
+pub fn chain_ctx(flat: &[FlatRec], rps: usize, i: usize) -> &'static str {
+    let r = &flat[i];
+    if r.flags & 0x1 == 0 || r.flags & 0x100 != 0 {
+        return "detached";
+    }
+    let s0 = (i / rps) * rps;
+    let s1 = (s0 + rps).min(flat.len());
+    let chain: Vec<&FlatRec> = flat[s0..s1].iter().filter(|x| x.flags & 0x1 != 0 && x.flags & 0x100 == 0 && x.name == r.name).collect();
+    if chain.len() < 2 {
+        return "detached";
+    }
+    if r.name.is_none() {
+        return "unnamed-chain";
+    }
+    if chain.iter().any(|x| x.flags & 0x800 != 0) {
+        return "supplementary-chain";
+    }
+    if chain.len() > 2 {
+        return "chain3+";
+    }
+    let (a, b) = (chain[0], chain[1]);
+    if chain.iter().any(|x| x.is_unmapped() && x.ref_id.is_some()) {
+        return "placed-unmapped-mate";
+    }
+    if a.ref_id.is_some() && b.ref_id.is_some() && a.ref_id != b.ref_id {
+        return "chimeric-in-slice";
+    }
+    if let (Some(x), Some(y)) = (a.start, b.start) {
+        if x > y {
+            return "right-first";
+        }
+    }
+    "regular"
+}
+
+fn fmt_canon(c: &Canon) -> String {
+    trunc(&g::canonical_text(c), 400)
+}
+
+// ---------------------------------------------------------------------------------------------
+// the check
+// ---------------------------------------------------------------------------------------------
+
+pub fn check_doc(doc: &CramDoc) -> Verdict {
+    let n = doc.to_noodles();
+    let flat = &n.flat;
+    let hz = g::hazards(doc, flat);
+    let dctx = doc_ctx(&hz);
+    let rps = doc.records_per_slice();
+    let mut fails = Fails::new();
+
+    // ---- write -------------------------------------------------------------------------------
+    let bytes = match panics::catch(|| g::write_noodles(doc, &n)) {
+        Ok(Ok(b)) => b,
+        Ok(Err(e)) => {
+            // "any stream the writer accepts": an `Err` is a rejection, not a violation — as long as
+            // it can come from a codec's stated limits (rANS 4x8 order-1 needs ≥ 4 bytes, the
+            // arithmetic coder cannot code symbol 255, …). With the basic codecs (none / gzip /
+            // bzip2 / lzma) nothing in the generated domain is documented as unacceptable, so a
+            // rejection there is reported.
+            let exotic = doc.opts.enc.as_ref().map(|m| std::iter::once(&m.core).chain(std::iter::once(&m.default)).chain(m.series.iter()).chain(m.tag_rule.iter()).any(|e| g::is_31(e) || matches!(e, g::Enc::Rans4x8(_)))).unwrap_or(false);
+            if exotic {
+                return Ok(Pass::new(false, key_of(doc)).label("writer-rejected-by-codec"));
+            }
+            // likewise an `Err` for a document of a hazard class (mapped read without bases, …) is a
+            // validated rejection; a *panic* there is the violation
+            if dctx != "-" {
+                return Ok(Pass::new(false, key_of(doc)).label("writer-rejected-hazard-class"));
+            }
+            return fail1(format!("c07.write-error@{dctx}:{}", panics::normalise(&e.to_string())), format!("the writer rejected the document: {e}"));
+        }
+        Err(p) => {
+            // a panic inside a codec names its own cause; a panic at a generic indexing site
+            // (noodles-core) is attributed to the input class of the document
+            let sig = if p.file.contains("noodles-core/") { format!("c07.write-panic@{dctx}:{}", p.sig()) } else { format!("c07.write-{}", p.sig()) };
+            return fail1(sig, p.describe());
+        }
+    };
+    // the same document with every block stored raw: the reference for the codec differential
+    let raw_bytes = doc.opts.enc.as_ref().and_then(|_| {
+        let mut d2 = doc.clone();
+        d2.opts.enc = Some(g::EncMap { core: g::Enc::None, default: g::Enc::None, series: vec![g::Enc::None; g::N_SERIES], tag_rule: Vec::new() });
+        match panics::catch(|| g::write_noodles(&d2, &n)) {
+            Ok(Ok(b)) => Some(b),
+            _ => None,
+        }
+    });
+
+    // ---- oracle 2: structure -------------------------------------------------------------------
+    let mut walked: Option<CramFile> = None;
+    let mut codec_defect = false;
+    match walk::walk(&bytes) {
+        Err(e) => fails.push("c07.walk.unparseable", e),
+        Ok(f) => {
+            // codec differential first: a block whose payload does not decode to the bytes that
+            // were encoded explains a "decodes to n bytes" size finding for the same method
+            let mut bad_methods: Vec<&'static str> = Vec::new();
+            if let Some(rb) = &raw_bytes {
+                if let Ok(rf) = walk::walk(rb) {
+                    bad_methods = codec_differential(&bytes, &f, rb, &rf, &mut fails);
+                }
+            }
+            codec_defect |= !bad_methods.is_empty();
+            for (kind, msg) in walk::check_structure(&bytes, &f) {
+                if let Some(m) = kind.strip_prefix("block-decode:") {
+                    // noodles cannot decode a block it wrote itself: a codec defect (C08's subject),
+                    // reported per method so that it does not hide container-level findings
+                    codec_defect = true;
+                    fails.push(format!("c07.codec.undecodable:{m}"), msg);
+                } else if kind.strip_prefix("raw-size:").map(|m| bad_methods.contains(&m)).unwrap_or(false) && msg.contains("decodes to") {
+                    continue;
+                } else {
+                    fails.push(format!("c07.walk.{kind}"), msg);
+                }
+            }
+            check_against_truth(doc, flat, &f, &mut fails);
+            walked = Some(f);
+        }
+    }
+
+    // ---- oracle 1: read back -------------------------------------------------------------------
+    // (skipped when a block is undecodable or decodes to other bytes than were encoded: the
+    // records cannot be right then, and the cause has been reported above)
+    let rctx = dctx;
+    if !codec_defect {
+    match panics::catch(|| g::read_noodles(&bytes, &n.repository)) {
+        Err(p) => fails.push(format!("c07.read-panic@{rctx}:{}", p.sig()), p.describe()),
+        Ok(Err(e)) => fails.push(format!("c07.read-error@{rctx}"), format!("reading the file back failed: {e}")),
+        Ok(Ok((header, recs))) => {
+            if header != doc.expected_header() {
+                fails.push("c07.header", format!("header read back differs: got {:?} want {:?}", trunc(&format!("{header:?}"), 500), trunc(&format!("{:?}", doc.expected_header()), 500)));
+            }
+            if recs.len() != flat.len() {
+                fails.push(format!("c07.record-count@{dctx}"), format!("{} records written, {} read back", flat.len(), recs.len()));
+            }
+            for (i, (want, got)) in flat.iter().zip(recs.iter()).enumerate() {
+                compare_record(doc, flat, rps, i, want, got, dctx, &mut fails);
+            }
+        }
+    }
+    }
+
+    // ---- accounting ----------------------------------------------------------------------------
+    let n_containers = walked.as_ref().map(|f| f.data_containers().count()).unwrap_or(0);
+    let in_slice_pair = (0..flat.len()).any(|i| chain_ctx(flat, rps, i) == "regular");
+    let cross_slice_pair = (0..flat.len()).any(|i| {
+        let r = &flat[i];
+        r.flags & 0x1 != 0 && chain_ctx(flat, rps, i) == "detached" && flat.iter().enumerate().any(|(j, x)| j != i && x.template == r.template && j / rps != i / rps)
+    });
+    let edited = flat.iter().any(|r| !r.is_unmapped() && r.edit_features > 0);
+    let nontrivial = edited || n_containers >= 2 || in_slice_pair;
+    let mut pass = Pass::new(nontrivial, key_of(doc))
+        .label_if(edited, "mapped-with-edits")
+        .label_if(n_containers >= 2, "containers>=2")
+        .label_if(n_containers >= 5, "containers>=5")
+        .label_if(in_slice_pair, "mate-pair-in-slice")
+        .label_if(cross_slice_pair, "mate-pair-across-slices")
+        .label_if(flat.is_empty(), "no-records")
+        .label_if(flat.iter().any(|r| r.is_unmapped() && r.ref_id.is_none()), "unplaced-unmapped")
+        .label_if(flat.iter().any(|r| r.is_unmapped() && r.ref_id.is_some()), "placed-unmapped")
+        .label_if(!doc.opts.preserve_read_names, "names-not-preserved")
+        .label_if(!doc.opts.ap_delta, "ap-absolute")
+        .label_if(doc.opts.enc.is_none(), "default-encoder-map")
+        .label_if(matches!(doc.order, g::Order::Sorted), "sorted")
+        .label_if(!matches!(doc.order, g::Order::Sorted), "unsorted")
+        .label_if(flat.iter().any(|r| r.cigar.iter().any(|(k, _)| *k == b'=' || *k == b'X')), "cigar-eqx")
+        .label_if(flat.iter().any(|r| r.cigar.iter().any(|(k, _)| *k == b'N')), "cigar-skip")
+        .label_if(flat.iter().any(|r| r.cigar.iter().any(|(k, _)| *k == b'P')), "cigar-pad")
+        .label_if(flat.iter().any(|r| r.cigar.iter().any(|(k, _)| *k == b'H')), "cigar-hardclip")
+        .label_if(flat.iter().any(|r| r.cigar.iter().any(|(k, _)| *k == b'S')), "cigar-softclip")
+        .label_if(flat.iter().any(|r| r.cigar.iter().any(|(k, _)| *k == b'I')), "cigar-ins")
+        .label_if(flat.iter().any(|r| r.cigar.iter().any(|(k, _)| *k == b'D')), "cigar-del")
+        .label_if(flat.iter().any(|r| r.bases.iter().any(|b| !b"ACGTNacgtn".contains(b))), "iupac-read-base")
+        .label_if(flat.iter().any(|r| r.bases.iter().any(|b| b.is_ascii_lowercase())), "lowercase-read-base")
+        .label_if(flat.iter().any(|r| !r.aux.is_empty()), "aux")
+        .label_if(flat.iter().any(|r| r.aux.iter().any(|(t, _)| t == "RG")), "aux-rg")
+        .label_if(flat.iter().any(|r| r.aux.iter().any(|(_, v)| g::aux_type_char(v) == b'B')), "aux-array")
+        .label_if(hz.any(), "hazard-class");
+    if let Some(f) = &walked {
+        pass = pass.label(if f.minor == 0 { "version-3.0" } else { "version-3.1" });
+        let mut multi = false;
+        let mut unm = false;
+        let mut methods = [false; 9];
+        for c in f.data_containers() {
+            for s in &c.slices {
+                if let Ok(h) = &s.header {
+                    multi |= h.ref_id == -2;
+                    unm |= h.ref_id == -1;
+                }
+            }
+            for b in &c.blocks {
+                if b.raw_size > 0 && (b.method as usize) < 9 {
+                    methods[b.method as usize] = true;
+                }
+            }
+        }
+        pass = pass.label_if(multi, "multi-ref-slice").label_if(unm, "unmapped-slice");
+        const ML: [&str; 9] = ["method-raw", "method-gzip", "method-bzip2", "method-lzma", "method-rans4x8", "method-ransNx16", "method-arith", "method-fqzcomp", "method-tok3"];
+        for (i, m) in methods.iter().enumerate() {
+            pass = pass.label_if(*m, ML[i]);
+        }
+    }
+    fails.finish(pass)
+}
+
+fn check(c: &Case) -> Verdict {
+    check_doc(&c.doc)
+}
+
+#[allow(clippy::too_many_arguments)]
+fn compare_record(doc: &CramDoc, flat: &[FlatRec], rps: usize, i: usize, want: &FlatRec, got: &noodles_sam::alignment::RecordBuf, dctx: &str, fails: &mut Fails) {
+    let w = g::canon_of_flat(want);
+    let r = g::canon_of_record(got);
+    let cctx = chain_ctx(flat, rps, i);
+    let detail = |what: &str| format!("record {i} ({what}): got  {}\n want {}", fmt_canon(&r), fmt_canon(&w));
+    if doc.opts.preserve_read_names && w.name != r.name {
+        // a missing name anywhere earlier in the same slice shifts the name series
+        let s0 = (i / rps) * rps;
+        let ctx = if flat[s0..=i].iter().any(|x| x.name.is_none()) { "missing-name" } else { dctx };
+        fails.push(format!("c07.name@{ctx}"), detail("name"));
+    }
+    if w.flags != r.flags {
+        fails.push(format!("c07.flags@{cctx}"), detail("flags"));
+    }
+    if w.ref_id != r.ref_id || w.start != r.start {
+        fails.push(format!("c07.position@{dctx}"), detail("reference / start"));
+    }
+    if w.mapq != r.mapq {
+        fails.push(format!("c07.mapq@{dctx}"), detail("mapping quality"));
+    }
+    if w.cigar != r.cigar {
+        fails.push(format!("c07.cigar@{dctx}"), detail("CIGAR"));
+    }
+    if w.mate_ref_id != r.mate_ref_id || w.mate_start != r.mate_start {
+        fails.push(format!("c07.mate@{cctx}"), detail("mate reference / start"));
+    }
+    // TLEN: not asserted when both segments of the pair start at the same position (the SAM
+    // specification leaves the choice of "leftmost" open there)
+    let tie = match (want.start, want.mate_start) {
+        (Some(a), Some(b)) => a == b && want.ref_id == want.mate_ref_id,
+        _ => false,
+    };
+    if !tie && w.tlen != r.tlen {
+        fails.push(format!("c07.tlen@{cctx}"), detail("TLEN"));
+    }
+    if w.bases != r.bases {
+        fails.push(format!("c07.bases@{dctx}"), detail("bases"));
+    }
+    if w.quals != r.quals {
+        fails.push(format!("c07.quals@{dctx}"), detail("quality scores"));
+    }
+    if w.aux != r.aux {
+        fails.push(format!("c07.aux@{dctx}"), detail("aux fields (tag → typed value map)"));
+    }
+}
+
+/// For every data block of the file written with the requested encoders: its decoded payload must
+/// equal the payload of the block with the same content id in the same slice of the file written
+/// with all encoders off (both files come from the same records, and each series' byte stream
+/// depends on the records only). Returns the methods for which a mismatch was found.
+fn codec_differential(file: &[u8], f: &CramFile, raw_file: &[u8], rf: &CramFile, fails: &mut Fails) -> Vec<&'static str> {
+    let mut bad: Vec<&'static str> = Vec::new();
+    if f.containers.len() != rf.containers.len() {
+        return bad;
+    }
+    for (ci, (c, rc)) in f.containers.iter().zip(rf.containers.iter()).enumerate() {
+        if c.is_eof || c.slices.len() != rc.slices.len() {
+            continue;
+        }
+        for (si, (s, rs)) in c.slices.iter().zip(rc.slices.iter()).enumerate() {
+            for bi in &s.data_blocks {
+                let b = &c.blocks[*bi];
+                if b.raw_size == 0 || b.method == walk::method::RAW {
+                    continue;
+                }
+                let Some(rb) = rs.data_blocks.iter().map(|i| &rc.blocks[*i]).find(|x| x.content_id == b.content_id && x.content_type == b.content_type && x.method == walk::method::RAW) else { continue };
+                let Ok(d) = walk::decode_block(file, b) else { continue };
+                let want = rb.payload(raw_file);
+                if d != want {
+                    bad.push(walk::method_name(b.method));
+                    let at = d.iter().zip(want.iter()).position(|(x, y)| x != y).unwrap_or(d.len().min(want.len()));
+                    fails.push(
+                        format!("c07.codec.roundtrip:{}", walk::method_name(b.method)),
+                        format!(
+                            "container {ci} slice {si} content id {} ({}, first payload byte {:#04x}): decodes to {} bytes, the series holds {} bytes; first difference at {at}: series {:02x?}… decoded {:02x?}…",
+                            b.content_id,
+                            walk::method_name(b.method),
+                            b.payload(file).first().copied().unwrap_or(0),
+                            d.len(),
+                            want.len(),
+                            &want[at.min(want.len())..(at + 8).min(want.len())],
+                            &d[at.min(d.len())..(at + 8).min(d.len())]
+                        ),
+                    );
+                }
+            }
+        }
+    }
+    bad
+}
+
+/// Walker facts joined with the generator's ground truth.
+fn check_against_truth(doc: &CramDoc, flat: &[FlatRec], f: &CramFile, fails: &mut Fails) {
+    let mut next = 0usize; // index of the next ground-truth record
+    let base = walk::counter_base(f); // 0, or 1 under the older "1-based" wording
+    for (ci, c) in f.containers.iter().enumerate() {
+        if c.is_eof {
+            continue;
+        }
+        let w = format!("container {ci} at {}", c.offset);
+        let c_first = next;
+        if let Some(Ok(h)) = &c.compression_header {
+            if h.pm_bool(b"RN") != doc.opts.preserve_read_names {
+                fails.push("c07.walk.preservation-map", format!("{w}: RN = {} but preserve_read_names = {}", h.pm_bool(b"RN"), doc.opts.preserve_read_names));
+            }
+            if h.pm_bool(b"AP") != doc.opts.ap_delta {
+                fails.push("c07.walk.preservation-map", format!("{w}: AP = {} but encode_alignment_start_positions_as_deltas = {}", h.pm_bool(b"AP"), doc.opts.ap_delta));
+            }
+        }
+        for (si, s) in c.slices.iter().enumerate() {
+            let w = format!("{w} slice {si}");
+            let Ok(h) = &s.header else { continue };
+            let n = h.n_records.max(0) as usize;
+            if next + n > flat.len() {
+                fails.push("c07.walk.record-partition", format!("{w}: declares {n} records but only {} of the {} written remain", flat.len() - next, flat.len()));
+                next = flat.len();
+                continue;
+            }
+            let recs = &flat[next..next + n];
+            next += n;
+            if h.record_counter != (next - n) as i64 + base {
+                fails.push("c07.walk.slice-record-counter", format!("{w}: record counter {} but {} records precede the slice", h.record_counter, next - n));
+            }
+            let (rid, start, span, exact) = truth_context(recs);
+            check_ref_context(&w, "slice", (h.ref_id, h.start, h.span), (rid, start, span, exact), fails);
+            // reference MD5 over the declared span (when the declared span is the true one this is
+            // the MD5 of the true span)
+            if h.ref_id >= 0 && (h.ref_id as usize) < doc.refs.len() && h.start >= 1 && h.span >= 1 {
+                let seq = doc.refs[h.ref_id as usize].seq.as_bytes();
+                let (a, b) = (h.start as usize - 1, (h.start + h.span - 1) as usize);
+                if b <= seq.len() {
+                    let want = g::md5_upper(&seq[a..b]);
+                    if h.md5 != want {
+                        fails.push("c07.walk.slice-md5", format!("{w}: reference MD5 {} but MD5(upper({}:{}-{})) = {}", g::hex(&h.md5), doc.refs[h.ref_id as usize].name, h.start, b, g::hex(&want)));
+                    }
+                } else {
+                    fails.push("c07.walk.slice-ref-context", format!("{w}: span {}..{} passes the end of reference {} ({} bases)", h.start, b, h.ref_id, seq.len()));
+                }
+            }
+        }
+        let recs = &flat[c_first..next];
+        if c.n_records as usize != recs.len() {
+            fails.push("c07.walk.container-record-count", format!("{w}: declares {} records, its slices hold {}", c.n_records, recs.len()));
+        }
+        if c.record_counter != c_first as i64 + base {
+            fails.push("c07.walk.container-record-counter", format!("{w}: record counter {} but {c_first} records precede it", c.record_counter));
+        }
+        // base counter: not asserted when a mapped record has no bases (CRAM then stores a read
+        // length the SAM record does not show)
+        if !recs.iter().any(|r| !r.is_unmapped() && r.bases.is_empty()) {
+            let bases: usize = recs.iter().map(|r| r.bases.len()).sum();
+            if c.bases != bases as i64 {
+                fails.push("c07.walk.container-base-count", format!("{w}: base counter {} but its records hold {bases} bases", c.bases));
+            }
+        }
+        let (rid, start, span, exact) = truth_context(recs);
+        check_ref_context(&w, "container", (c.ref_id, c.start, c.span), (rid, start, span, exact), fails);
+    }
+    if next != flat.len() {
+        fails.push("c07.walk.record-partition", format!("the slices declare {next} records in total, {} were written", flat.len()));
+    }
+}
+
+/// (reference id | −1 all unplaced | −2 mixed, min start, span, exact). `exact` is false when a
+/// placed unmapped read lies in the range: the specification does not say how many reference
+/// bases such a read covers, so only the reference id is asserted then.
+fn truth_context(recs: &[FlatRec]) -> (i32, i32, i32, bool) {
+    if recs.is_empty() {
+        return (-1, 0, 0, false);
+    }
+    let first = recs[0].ref_id;
+    if recs.iter().any(|r| r.ref_id != first) {
+        return (-2, 0, 0, true);
+    }
+    match first {
+        None => (-1, 0, 0, true),
+        Some(id) => {
+            let exact = !recs.iter().any(|r| r.is_unmapped());
+            let start = recs.iter().filter_map(|r| r.start).min().unwrap_or(0);
+            let end = recs.iter().filter_map(|r| r.end()).max().unwrap_or(0);
+            (id as i32, start as i32, (end + 1).saturating_sub(start) as i32, exact)
+        }
+    }
+}
+
+fn check_ref_context(w: &str, what: &str, got: (i32, i32, i32), want: (i32, i32, i32, bool), fails: &mut Fails) {
+    let (rid, start, span, exact) = want;
+    if got.0 != rid {
+        fails.push(format!("c07.walk.{what}-ref-context"), format!("{w}: reference id {} but its records give {rid}", got.0));
+    } else if rid >= 0 && exact && (got.1 != start || got.2 != span) {
+        fails.push(format!("c07.walk.{what}-ref-context"), format!("{w}: start {} span {} but its records cover start {start} span {span}", got.1, got.2));
+    }
+}
+
+// ---------------------------------------------------------------------------------------------
+// second sub-check: the lazily decoded records (`Slice::records`, the documented container-level
+// read path) show the same aux fields as the input
+// ---------------------------------------------------------------------------------------------
+
+fn lazy_strategy(_tier: Tier) -> BoxedStrategy<Case> {
+    g::doc_strategy(g::Params { encoders: false, ..g::Params::safe() }).prop_map(|doc| Case { doc }).boxed()
+}
+
+type LazyAux = Vec<(String, g::AuxVal)>;
+
+fn lazy_aux(bytes: &[u8], repo: &noodles_fasta::Repository) -> std::io::Result<Vec<(LazyAux, bool)>> {
+    use noodles_sam::alignment::Record as _;
+    use noodles_sam::alignment::record_buf::data::field::Value as ValueBuf;
+    let mut reader = noodles_cram::io::reader::Builder::default().set_reference_sequence_repository(repo.clone()).build_from_reader(bytes);
+    let header = reader.read_header()?;
+    let mut container = noodles_cram::io::reader::Container::default();
+    let mut out = Vec::new();
+    while reader.read_container(&mut container)? != 0 {
+        let ch = container.compression_header()?;
+        for slice in container.slices() {
+            let slice = slice?;
+            let (core, ext) = slice.decode_blocks()?;
+            let records = slice.records(repo.clone(), &header, &ch, &core, &ext)?;
+            for rec in &records {
+                let data = rec.data();
+                let mut aux: LazyAux = Vec::new();
+                let mut get_agrees = true;
+                for r in data.iter() {
+                    let (t, v) = r?;
+                    let vb: ValueBuf = v.try_into()?;
+                    let a = g::value_to_aux(&vb);
+                    match data.get(&t) {
+                        Some(Ok(x)) => {
+                            let xb: ValueBuf = x.try_into()?;
+                            // with a duplicated tag `get` can only agree with one of the two
+                            if g::value_to_aux(&xb) != a {
+                                get_agrees = false;
+                            }
+                        }
+                        _ => get_agrees = false,
+                    }
+                    aux.push((String::from_utf8_lossy(t.as_ref()).into_owned(), a));
+                }
+                out.push((aux, get_agrees));
+            }
+        }
+    }
+    Ok(out)
+}
+
+fn check_lazy(c: &Case) -> Verdict {
+    let doc = &c.doc;
+    let n = doc.to_noodles();
+    let flat = &n.flat;
+    // write / read failures are the first sub-check's business
+    let Ok(Ok(bytes)) = panics::catch(|| g::write_noodles(doc, &n)) else { return Ok(Pass::new(false, key_of(doc)).label("write-failed")) };
+    let mut fails = Fails::new();
+    match panics::catch(|| lazy_aux(&bytes, &n.repository)) {
+        Err(p) => fails.push(format!("c07.lazy.read-{}", p.sig()), p.describe()),
+        Ok(Err(e)) => fails.push("c07.lazy.read-error", format!("container-level read failed: {e}")),
+        Ok(Ok(recs)) => {
+            if recs.len() != flat.len() {
+                fails.push("c07.lazy.record-count", format!("{} records written, {} decoded", flat.len(), recs.len()));
+            }
+            for (i, (want, (got, get_agrees))) in flat.iter().zip(recs.iter()).enumerate() {
+                let mut w = want.aux.clone();
+                w.sort_by(|a, b| a.0.cmp(&b.0));
+                let mut gsorted = got.clone();
+                gsorted.sort_by(|a, b| a.0.cmp(&b.0));
+                if gsorted == w {
+                    if !get_agrees {
+                        fails.push("c07.lazy.get-vs-iter", format!("record {i}: Data::get disagrees with Data::iter on {got:?}"));
+                    }
+                    continue;
+                }
+                let mut dup: Vec<&String> = Vec::new();
+                for k in 1..gsorted.len() {
+                    if gsorted[k].0 == gsorted[k - 1].0 && !dup.contains(&&gsorted[k].0) {
+                        dup.push(&gsorted[k].0);
+                    }
+                }
+                let mut dedup = gsorted.clone();
+                dedup.dedup();
+                if !dup.is_empty() && dedup == w {
+                    for t in dup {
+                        fails.push(format!("c07.lazy.duplicate-tag:{t}"), format!("record {i}: the decoded record lists tag {t} twice (same value): {got:?}"));
+                    }
+                } else {
+                    fails.push("c07.lazy.aux", format!("record {i}: decoded aux fields {got:?}, written {:?}", want.aux));
+                }
+            }
+        }
+    }
+    let with_aux = flat.iter().any(|r| !r.aux.is_empty());
+    fails.finish(Pass::new(with_aux, key_of(doc)).label_if(with_aux, "aux").label_if(flat.iter().any(|r| r.aux.iter().any(|(t, _)| t == "RG")), "aux-rg"))
+}
 
 pub fn property() -> Property {
-    Property { id: "C07", level: "exploration", rule: "", assumptions: vec![], subs: vec![], max_parallel: 16 }
+    Property {
+        id: "C07",
+        level: "exploration",
+        rule: "reference sequences (ACGT, N runs, lower case, IUPAC) × record streams derived from them by edit scripts (match/mismatch/ins/del/skip/clip/pad, =/X, unmapped, pairs in and across slices, secondary/supplementary, orphans, aux fields of every type, RG) × sorted/listed/shuffled order × preserve_read_names × AP delta × per-series/tag/core/default block encoders × records-per-slice ∈ {1,2,3,7,default}",
+        assumptions: vec![
+            "harness oracles: gen::cram ground truth (CIGAR/bases from the edit script, mate fields, TLEN by SAMv1 §1.4.9), oracle::cram_walk (own ITF8/LTF8, layout from CRAMv3 §6–§9)".into(),
+            "crc32fast, md-5, miniz_oxide and the bzip2 crate are correct".into(),
+            "raw/gzip/bzip2 block payloads are decoded independently; lzma, rANS 4x8, rANS Nx16, arith, fqzcomp and tok3 payloads through noodles' own decoders (hook H2a): for those only 'decodes to exactly the declared raw size' and the stream's own size field are established".into(),
+            "normal form: =/X → M with adjacent ops merged, bases compared upper-cased, MAPQ of unmapped reads not compared (CRAM has no MQ series for them), aux fields as a tag → typed value map, names only when preserved, TLEN not compared when both segments start at the same position".into(),
+            "multi-slice containers are unreachable through the public API and outside the domain".into(),
+        ],
+        subs: vec![
+            sub(
+                "roundtrip_and_structure",
+                "non-trivial = a mapped read with a non-match feature, or ≥2 containers, or a mate pair inside one slice; distinct by hash of the document",
+                strategy,
+                check,
+                8_000,
+                160_000,
+            )
+            .boxed(),
+            sub(
+                "lazy_record_aux",
+                "the container-level read path (Container::slices → Slice::records → alignment::Record::data) lists exactly the written aux fields, each tag once, and Data::get agrees with Data::iter; non-trivial = a record with aux fields; safe G-cram domain, default encoder map",
+                lazy_strategy,
+                check_lazy,
+                2_000,
+                30_000,
+            )
+            .boxed(),
+        ],
+        max_parallel: 16,
+    }
 }
